@@ -333,6 +333,38 @@ impl<'data, T: Sync + 'data> IntoParallelRefIterator<'data> for [T] {
     }
 }
 
+/// rayon::slice::ParallelSlice (par_chunks) and IntoParallelRefMutIterator are offered for slices
+pub trait ParallelSlice<T: Sync> {
+    fn as_parallel_slice(&self) -> &[T];
+    fn par_chunks(&self, chunk_size: usize) -> Source<&[T]> {
+        assert!(chunk_size != 0, "chunk_size must not be zero");
+        Source { items: self.as_parallel_slice().chunks(chunk_size).collect() }
+    }
+    fn par_windows(&self, window_size: usize) -> Source<&[T]> {
+        Source { items: self.as_parallel_slice().windows(window_size).collect() }
+    }
+}
+impl<T: Sync> ParallelSlice<T> for [T] {
+    fn as_parallel_slice(&self) -> &[T] {
+        self
+    }
+}
+
+impl<'data, T: Sync + 'data> IntoParallelIterator for &'data Vec<T> {
+    type Iter = Source<&'data T>;
+    type Item = &'data T;
+    fn into_par_iter(self) -> Source<&'data T> {
+        Source { items: self.iter().collect() }
+    }
+}
+impl<'data, T: Sync + 'data> IntoParallelIterator for &'data [T] {
+    type Iter = Source<&'data T>;
+    type Item = &'data T;
+    fn into_par_iter(self) -> Source<&'data T> {
+        Source { items: self.iter().collect() }
+    }
+}
+
 pub struct Map<I, F> {
     inner: I,
     f: F,
@@ -608,6 +640,10 @@ where
     }
     let all = pi.take_bases();
     let total = all.len();
+    if cfg.deliver.is_some() && cfg.deliver_expect > 0 && total != cfg.deliver_expect {
+        sim::with(|s| s.stats.subset_not_applicable += 1);
+        cfg.deliver = None;
+    }
     // F-subset: the simulated pool hands the pipeline only the chosen positions
     let mut bases: Vec<(usize, PI::Base)> = Vec::with_capacity(total);
     for (pos, b) in all.into_iter().enumerate() {
